@@ -21,18 +21,23 @@ VOC_F = VOC_R + [('NUMBER', '0x1F'), ('NUMBER', '1_0'), ('NUMBER', '1e3'), ('NUM
                  ('NUMBER', '1j'), ('STRING', '"b"'), ('STRING', "'''t'''"), ('STRING', "r'\\n'"),
                  ('STRING', "b'x'"), ('STRING', "rb'y'"), ('STRING', "u'z'"), ('STRING', '""'),
                  ('NAME', 'False'), ('NAME', 'None'), ('OP', '='), ('OP', '.'), ('OP', '*')]
-VOCS = [VOC_R, VOC_F]
+# structural vocabulary for deeper nesting (N = 7): brackets, comma, one number, one string
+VOC_S = [END, ('OP', '('), ('OP', ')'), ('OP', '['), ('OP', ']'), ('OP', ','), ('NUMBER', '1')]
+VOC_T = VOC_S + [('OP', '{'), ('OP', '}'), ('OP', ':'), ('STRING', "'a'")]
+VOCS = [VOC_R, VOC_F, VOC_S, VOC_T]
 PREFIX = [('NAME', 'vw'), ('OP', '.'), ('NAME', 'lit'), ('OP', '.'), ('NAME', 'p'), ('OP', '=')]
 PREFIX_GAPS = [0, 0, 0, 0, 0, 1]
 
 
-def c02_tokens(n: int, voc: int, k0: int, k1: int, k2: int, k3: int, k4: int, k5: int) -> bool:
+def c02_tokens(nk: int, n: int, voc: int, k0: int, k1: int, k2: int, k3: int, k4: int, k5: int,
+               k6: int, k7: int) -> bool:
   """
-  pre: 0 <= k0 < 36 and 0 <= k1 < 36 and 0 <= k2 < 36 and 0 <= k3 < 36 and 0 <= k4 < 36 and 0 <= k5 < 36
+  pre: 0 <= k0 < nk and 0 <= k1 < nk and 0 <= k2 < nk and 0 <= k3 < nk and 0 <= k4 < nk and 0 <= k5 < nk
+  pre: 0 <= k6 < nk and 0 <= k7 < nk
   """
   world.fresh()
   vocab = VOCS[voc]
-  kinds = [k0, k1, k2, k3, k4, k5]
+  kinds = [k0, k1, k2, k3, k4, k5, k6, k7]
   w = tokseam.Writer()
   st = {'pulled': [], 'ended': False, 'eof_error': False, 'finished': False}
 
@@ -43,9 +48,7 @@ def c02_tokens(n: int, voc: int, k0: int, k1: int, k2: int, k3: int, k4: int, k5
     i = 0
     while True:
       if i < n:
-        k = rt.pick(kinds[i], 36)
-        if k >= len(vocab):
-          rt.discard()
+        k = rt.pick(kinds[i], len(vocab))
         typ, s = vocab[k]
       else:
         typ, s = END
@@ -86,7 +89,12 @@ def c02_tokens(n: int, voc: int, k0: int, k1: int, k2: int, k3: int, k4: int, k5
       gin.parse_config('(symbolic token stream)')
       outcome = 'accepted'
       # (containers built under tracing are CrossHair proxies: make them plain)
-      value = rt.realize(gin.query_parameter('vw.lit.p'))
+      try:
+        value = rt.realize(gin.query_parameter('vw.lit.p'))
+      except TypeError as e:
+        # CrossHair's dict model accepts unhashable keys; making the value plain
+        # raises what CPython's dict() raises in the real run
+        outcome, exc = 'typeerror', e
     except (SyntaxError, tokseam.TokenError) as e:
       outcome = 'rejected'
       exc = e
@@ -138,8 +146,9 @@ def c02_tokens(n: int, voc: int, k0: int, k1: int, k2: int, k3: int, k4: int, k5
 
 
 def _smoke(*ks, n=6, voc=1):
-  ks = list(ks) + [0] * (6 - len(ks))
-  return dict(n=n, voc=voc, k0=ks[0], k1=ks[1], k2=ks[2], k3=ks[3], k4=ks[4], k5=ks[5])
+  ks = list(ks) + [0] * (8 - len(ks))
+  return dict(n=n, voc=voc, nk=len(VOCS[voc]), k0=ks[0], k1=ks[1], k2=ks[2], k3=ks[3], k4=ks[4], k5=ks[5],
+              k6=ks[6], k7=ks[7])
 
 
 HARNESSES = {
@@ -150,13 +159,23 @@ HARNESSES = {
                  'gin.config:bind_parameter'],
         smoke=[_smoke(2, 12, 8, 13, 3), _smoke(14, 13), _smoke(6, 12, 9, 10, 12, 7),
                _smoke(4, 12, 8, 5, 1), _smoke(2, 17, 12, 18, 3)],
-        tiers={'quick': dict(split=dict(k0=list(range(19)), k1=list(range(19))), fixed=dict(n=4, voc=0, k4=0, k5=0),
-                             budget_s=100),
+        tiers={'quick': dict(split=dict(k0=list(range(19)), k1=list(range(19))),
+                             fixed=dict(n=4, voc=0, nk=19, k4=0, k5=0, k6=0, k7=0), budget_s=100),
                'thorough': dict(split=dict(k0=list(range(36)), k1=list(range(36))),
-                                fixed=dict(n=4, voc=1, k4=0, k5=0), budget_s=900)},
+                                fixed=dict(n=4, voc=1, nk=36, k4=0, k5=0, k6=0, k7=0), budget_s=900)},
         bounds='value = at most 4 tokens; quick: 19-kind vocabulary (brackets , : - + NUMBER STRING empty-STRING '
                'True NAME NL COMMENT, END, END-with-comment); thorough: 36 kinds (6 NUMBER forms, 8 STRING/bytes '
                'forms, True/False/None/x, = . *)'),
+    'c02_deep': dict(
+        fn='c02_tokens',
+        anchors=['gin.config_parser:_maybe_parse_container'],
+        smoke=[_smoke(1, 1, 6, 5, 6, 2, 2, n=7, voc=2), _smoke(7, 3, 4, 9, 10, 5, 8, n=7, voc=3)],
+        tiers={'quick': dict(split=dict(k0=list(range(7)), k1=list(range(7))),
+                             fixed=dict(n=7, voc=2, nk=7, k7=0), budget_s=100),
+               'thorough': dict(split=dict(k0=list(range(11)), k1=list(range(11)), k2=list(range(11))),
+                                fixed=dict(n=8, voc=3, nk=11), budget_s=900)},
+        bounds='value = at most 7 tokens over a 7-kind structural vocabulary (( ) [ ] , 1 END) (quick) / 8 tokens '
+               'over 11 kinds (+ { } : \'a\') (thorough): nesting up to depth 3 with several items'),
 }
 RULE = ('one case per parser-distinguishable token sequence (tokens are chosen lazily when the parser pulls '
         'them); non-trivial: the grammar accepts it or at least two value tokens were consumed')
